@@ -78,6 +78,22 @@ def _is_take_equivalent(u):
     return False
 
 
+def _is_pair_search(prog, body, o):
+    """origin `o` (a call) is a search of an index list for a live attack equal to a given pair: `Iterator::position` /
+    `Iterator::any` with a comparing closure, or a local helper of the store returning Option<usize> / bool that compares
+    attack slots (`fn find_live_attack(from, to) -> Option<usize>`)"""
+    if o.kind != "call":
+        return False
+    if callee_matches(o.data, r"iterator::Iterator::(position|any|find)$"):
+        return True
+    t = prog.body_for_callee(o.data, body) if o.data.get("decl") != "<indirect>" else None
+    if t is not None and t.kind != "closure" and t.impl and t.impl.get("self_adt") == AAF and (t.ret_ty.startswith("core::option::Option<") or t.ret_ty == "bool"):
+        for x in prog.with_closures(t):
+            if any(callee_matches(callee_of(s), r"cmp::PartialEq::(eq|ne)$") for s in x.calls()):
+                return True
+    return False
+
+
 def rule_label_ops(ctx):
     prog = ctx.prog
     r = ctx.rule(
@@ -259,9 +275,9 @@ def rule_attack_ops(ctx):
                 if b.dominates(t.site, u.site) and not b.in_loop(u.site.bb):
                     searched = False
                     for c in conditions(b, t.site.bb):
-                        if c.is_discr and not c.negated and c.values == ["1"]:
+                        if on_some_arm(c):
                             for o in origins(b, c.place, transparent=()):
-                                if o.kind == "call" and callee_matches(o.data, r"iterator::Iterator::position$"):
+                                if _is_pair_search(prog, b, o):
                                     searched = True
                     if searched and b.postdominates(u.site, t.site):
                         paired = u
@@ -297,20 +313,22 @@ def rule_index_pairing(ctx):
     if not r.require_anchor(len(idx_fields) == 2, "two Vec<Vec<usize>> index fields in %s" % owner):
         return
     pushes = [u for u in _muts(prog, owner, fld) if u.op == "alloc::vec::Vec::push"]
-    r.floor(len(pushes), 2, "push sites on the attack vector")
+    r.floor(len(pushes), 1, "push sites on the attack vector")
     for u in pushes:
         b = u.site.body
         for f in idx_fields:
             ip = [x for x in _muts(prog, owner, f) if x.op == "index_mut>alloc::vec::Vec::push" and x.site.body is b and b.dominates(u.site, x.site) and b.postdominates(x.site, u.site)]
             ok = False
             for x in ip:
-                # pushed value = len(attacks) - 1
+                # pushed value = len(attacks) - 1 (read after the push), or len(attacks) read before the push
                 for o in origins(b, x.site.node["args"][1], transparent=()):
                     if o.kind == "binop" and o.data["op"] in ("Sub", "SubWithOverflow"):
                         k = op_const(o.data["ops"][1])
                         _, calls, _ = data_deps(b, o.data["ops"][0])
-                        if k is not None and k.get("int") == 1 and any(callee_matches(callee_of(c), r"^alloc::vec::Vec::len$") for c in calls):
+                        if k is not None and k.get("int") == 1 and any(callee_matches(callee_of(c), r"^alloc::vec::Vec::len$") and b.dominates(u.site, c) for c in calls):
                             ok = True
+                    elif o.kind == "call" and callee_matches(o.data, r"^alloc::vec::Vec::len$") and fld in self_fields_read(b, o.site.node["args"][0]) and b.dominates(o.site, u.site):
+                        ok = True
             r.check(ok, "%s|%s|%s" % (owner, u.fn.path, f), "missing-index-push", "attack push in %s is followed by a push of len-1 on %s" % (u.fn.path, f), "the attack pushed in %s is not recorded in index list %s on the same path" % (u.fn.path, f), u.site.loc())
     # growth of the index vectors
     for f in idx_fields:
@@ -392,6 +410,16 @@ def _mutating_sites(prog, b):
                 f = place_fields(rv["place"])
                 for c in consumers(b, d["l"], follow_refs=True):
                     if c.kind == "call":
+                        # a pure accessor (`fn label_set_mut(&mut self) -> &mut LabelSet { &mut self.0 }`) mutates nothing:
+                        # what happens to the reference it returns is what counts
+                        t = prog.body_for_callee(c.info[0], b) if c.info[0] and c.info[0].get("decl") != "<indirect>" else None
+                        if t is not None and t.kind != "closure" and not list(t.calls()) and t.ret_ty.startswith("&mut ") and all(st.node["k"] != "assign" or not (st.node["dst"]["p"]) for st in t.sites() if st.si is not None):
+                            for c2 in consumers(b, c.site.node["dst"]["l"], follow_refs=True):
+                                if c2.kind == "call":
+                                    out.append((c2.site, "%s(&mut self%s via %s)" % (strip_generics((c2.info[0] or {}).get("decl", "?")), "." + str(f[0]) if f else "", t.path.rsplit("::", 1)[-1]), c2.info[0]))
+                                elif c2.kind == "store":
+                                    out.append((c2.site, "escaping &mut", None))
+                            continue
                         out.append((c.site, "%s(&mut self%s)" % (strip_generics((c.info[0] or {}).get("decl", "?")), "." + str(f[0]) if f else ""), c.info[0]))
                     elif c.kind == "store":
                         info = c.info
@@ -503,24 +531,53 @@ def rule_idempotent_insertions(ctx):
     owner, fld, _ = fields["attacks"]
     pushes = [u for u in _muts(prog, owner, fld) if u.op == "alloc::vec::Vec::push"]
     n = 0
+
+    def no_equal_pair_guard(body, site):
+        """the site runs only when a search for a live equal pair found nothing"""
+        for c in conditions(body, site.bb):
+            for o in origins(body, c.place, transparent=()):
+                if o.kind != "call":
+                    continue
+                # `!list.iter().any(|id| attacks[*id] == Some(pair))`
+                if c.is_false() and callee_matches(o.data, r"iterator::Iterator::any$"):
+                    for cp in o.data.get("fn_args", []):
+                        cb = prog.lib(cp)
+                        if cb and any(callee_matches(callee_of(s), r"cmp::PartialEq::eq$") for s in cb.calls()):
+                            return True
+                # `search(..).is_none()` / the None arm of a search helper
+                if c.is_true() and callee_matches(o.data, r"^core::option::Option::is_none$"):
+                    if any(_is_pair_search(prog, body, oo) for oo in origins(body, o.site.node["args"][0], transparent=()) if oo.kind == "call"):
+                        return True
+                if c.is_false() and callee_matches(o.data, r"^core::option::Option::is_some$"):
+                    if any(_is_pair_search(prog, body, oo) for oo in origins(body, o.site.node["args"][0], transparent=()) if oo.kind == "call"):
+                        return True
+                if on_none_arm(c) and _is_pair_search(prog, body, o) and not callee_matches(o.data, r"iterator::Iterator::any$"):
+                    return True
+        return False
+
     for u in pushes:
         b = u.site.body
         sig = prog.sigs.get(("lib", b.path))
-        if sig is None or sig["vis"] != "pub":
-            r.note("by-id insertion %s keeps duplicates (crate-private, used by the ICCMA reader and component extraction)" % b.path)
-            continue
-        n += 1
-        guarded = False
-        for c in conditions(b, u.site.bb):
-            if c.is_false():
-                for o in origins(b, c.place, transparent=()):
-                    if o.kind == "call" and callee_matches(o.data, r"iterator::Iterator::any$"):
-                        # the closure compares the stored pair with Some((from, to))
-                        for cp in o.data.get("fn_args", []):
-                            cb = prog.lib(cp)
-                            if cb and any(callee_matches(callee_of(s), r"cmp::PartialEq::eq$") for s in cb.calls()):
-                                guarded = True
-        r.check(guarded, b.id, "unguarded-push", "attack pushed only when no live equal pair exists", "the by-label insertion pushes an attack without checking for an existing equal pair", u.site.loc())
+        # entry points of this push: the function itself when it is callable from outside the type's module, else its callers
+        entries = []
+        if sig is not None and sig["vis"] == "pub":
+            entries.append((b, u.site))
+        else:
+            for cs in prog.callers_of(b):
+                cf = prog.enclosing_fn(cs.body)
+                csig = prog.sigs.get(("lib", cf.path))
+                entries.append((cs.body, cs) if csig is not None and csig["vis"] == "pub" else (None, cs))
+        for eb, es in entries:
+            if eb is None:
+                r.note("by-id insertion through %s keeps duplicates (crate-private, used by the ICCMA reader and component extraction)" % prog.enclosing_fn(es.body).path)
+                continue
+            # by-label insertion: the public function takes labels (&T), not ids
+            ef = prog.enclosing_fn(eb)
+            if not any(ef.local_ty(k).replace("&", "").strip() == "T" for k in range(2, ef.n_args + 1)):
+                r.note("by-id insertion %s keeps duplicates" % ef.path)
+                continue
+            n += 1
+            r.check(no_equal_pair_guard(eb, es), ef.id, "unguarded-push", "attack pushed only when no live equal pair exists", "the by-label insertion pushes an attack without checking for an existing equal pair", es.loc())
     r.floor(n, 1, "public by-label attack insertion")
 
 
@@ -557,7 +614,7 @@ def rule_iterators_filter(ctx):
                 if callee_matches(c, r"iterator::Iterator::flatten$") and "Option<" in str(c.get("substs")):
                     ok = True  # `iter().flatten()` over Option slots yields the Some entries only
             r.check(ok, b.id, "no-filter", "%s filters tombstones" % b.path, "%s iterates the %s vector without skipping removed entries" % (b.path, key), b.loc())
-    r.floor(n, 4, "iterator functions over the label / attack vectors")
+    r.floor(n, 2, "iterator functions over the label / attack vectors")
 
 
 # ------------------------------------------------------------------------------------------
